@@ -91,7 +91,8 @@ claim("C12", "type-resolved who-may-call over all workspace MIR + enumerated tab
       "findings); (c) the parallel warm-up returns nothing and ensure_diagnostics returns the sequential result; no ambient input (env, "
       "clock, randomness, thread/process id) is read in code reachable from a tracked query outside the table; (d) no closure handed to a rayon "
       "consumer / join / spawn / scope writes order-bearing shared state (a lock or mutable borrow over anything but a hashed / sorted set or map, a channel, a value-returning atomic), so values leave a parallel body only through "
-      "its return value, which the collectors put back in input order." + DECIDES +
+      "its return value, which the collectors put back in input order; (e) an id built by the Sierra generator that keeps the interned "
+      "number it was given (the debug-name replacer) carries Some(debug name) on every path, so no intern number is printed." + DECIDES +
       " That the remaining order sources (BFS order, OrderedHash* insertion order) are deterministic functions of the sources is not decided.",
       "trusted: rustc MIR and type resolution, fact dumper; tables c12_hash_iter.tsv / c12_id_order.tsv / c12_ambient.tsv carry the reasons",
       "DESIGN.md section 4, C12")
